@@ -81,6 +81,19 @@ def fm_track(track, side, sectors, order=None, layout=None, track_bytes=3125, he
     order = [s_ for s_ in order for _ in range(2 if quirks.get(s_, {}).get("dup") else 1)]
     for sec in order:
         q = quirks.get(sec, {})
+        if "orphan" in q:
+            # an extra ID field with no record of its own in front of this sector (gap bytes, then the real sector)
+            for _ in range(lay["sync"]):
+                put(0x00)
+            put(0xFE, 0xC7)
+            oid = bytes([track & 0xFF, head & 0xFF, q["orphan"].get("rec", sec) & 0xFF, size_code])
+            ocrc = crc16_ccitt(bytes([0xFE]) + oid)
+            for b in oid:
+                put(b)
+            put(ocrc >> 8)
+            put(ocrc & 0xFF)
+            for _ in range(q["orphan"].get("gap", 60)):
+                put(0xFF)
         for _ in range(lay["sync"]):
             put(0x00)
         idpos = len(cells)
@@ -152,6 +165,18 @@ def mfm_track(track, side, sectors, order=None, layout=None, track_bytes=6250, h
     order = [s_ for s_ in order for _ in range(2 if quirks.get(s_, {}).get("dup") else 1)]
     for sec in order:
         q = quirks.get(sec, {})
+        if "orphan" in q:
+            for _ in range(lay["sync"]):
+                w.byte(0x00)
+            for _ in range(3):
+                w.raw16(0x4489, 1)
+            oid = bytes([0xFE, track & 0xFF, head & 0xFF, q["orphan"].get("rec", sec) & 0xFF, size_code])
+            ocrc = crc16_ccitt(b"\xA1\xA1\xA1" + oid)
+            w.bytes(oid)
+            w.byte(ocrc >> 8)
+            w.byte(ocrc & 0xFF)
+            for _ in range(q["orphan"].get("gap", 60)):
+                w.byte(0x4E)
         for _ in range(lay["sync"]):
             w.byte(0x00)
         idpos = len(w.cells)
